@@ -51,6 +51,7 @@ type Contract struct {
 	Requires   []*Clause
 	Ensures    []*Clause
 	Modifies   []*CExpr // nil = not stated
+	UnknownPreserve []*CExpr
 	Preserves  []*CExpr // with modifies all: heap keys that are nevertheless unchanged (T.f, elems(*T), global(v))
 	ModAll     bool
 	ModNone    bool
@@ -409,6 +410,15 @@ func (sp *Specs) loadSpecFile(path, pkg string) error {
 					}
 					c.Modifies = append(c.Modifies, e)
 				}
+			}
+		case "unknown_calls_preserve":
+			// blanket assumption for this function: calls without a contract leave these heap keys unchanged
+			for _, part := range splitTop(rest, ',') {
+				e, err := parseCExpr(part)
+				if err != nil {
+					return fail(l, "%v", err)
+				}
+				c.UnknownPreserve = append(c.UnknownPreserve, e)
 			}
 		case "preserves":
 			for _, part := range splitTop(rest, ',') {
